@@ -21,6 +21,10 @@ class SCls:
     def __repr__(self):
         return f"SCls({self.t})"
 
+    def as_val(self):
+        from .core import cls_val
+        return cls_val(self.t)
+
 
 class SText:
     """Structured text: a concrete list of atoms (see DESIGN 2.4).
